@@ -567,6 +567,10 @@ fn main() {
             let file = arg(&args, "--file").expect("--file");
             let outp = arg(&args, "--out").expect("--out");
             let budget: usize = arg(&args, "--budget").unwrap_or("300").parse().unwrap();
+            // wall-clock bound on minimisation: past it every further candidate counts as "does not
+            // fail", so the best plan found so far is written out
+            let max_seconds: u64 = arg(&args, "--max-seconds").unwrap_or("600").parse().unwrap();
+            let shrink_deadline = Instant::now() + std::time::Duration::from_secs(max_seconds);
             let text = std::fs::read_to_string(file).expect("read");
             let mut rf: ReplayFile = serde_json::from_str(&text).expect("parse");
             let class = rf.class.clone();
@@ -575,12 +579,12 @@ fn main() {
             let (best, execs) = sched::shrink(&rf.plan, &class, budget.min(12));
             #[cfg(not(chess_verif_shuttle))]
             let (best, execs) = {
-                let (mut best, mut execs) = plan::shrink(&rf.plan, &class, budget, |p| exec(p).violation.map(|v| v.class));
+                let (mut best, mut execs) = plan::shrink(&rf.plan, &class, budget, |p| if Instant::now() > shrink_deadline { None } else { exec(p).violation.map(|v| v.class) });
                 // simpler start position: pieces that play no part are taken off the board
                 if let Some(start) = model::Pos::from_fen(&best.start_fen) {
                     let mut cur = start;
                     for s in 0..64usize {
-                        if execs >= budget + 64 {
+                        if execs >= budget + 64 || Instant::now() > shrink_deadline {
                             break;
                         }
                         match cur.sq[s] {
